@@ -111,6 +111,10 @@ func alphabet() []namedVal {
 	add("fixstr", "str", codec.Str("GET /x é\"\\\n"), true, true)
 	add("str8(short)", "str", codec.StrAs("s8", codec.Str8), true, false)
 	add("str8-40chars", "str", codec.Str(strings.Repeat("0123456789", 4)), true, true)
+	// large values: an event of tens of kilobytes (a long SQL statement, a stack trace) followed by further events
+	// of the same request exercises the decoders' buffer handling (pooled scratch space must not be shared)
+	add("str16-20000chars", "str", codec.Str(strings.Repeat("0123456789abcdef", 1250)), true, true)
+	add("str32-70000chars", "str", codec.Str(strings.Repeat("0123456789abcdeF", 4375)), true, false)
 	add("str16(short)", "str", codec.StrAs("s16", codec.Str16), true, false)
 	add("str32(short)", "str", codec.StrAs("s32", codec.Str32), true, false)
 	add("bin8", "bin", codec.Bin("\x00\xff bin"), false, true)
